@@ -8,6 +8,7 @@ CONSTANTS
   Fmts = {"bc_idx", "idx_bc"}
   NFiles = {1}
   Lazy = {FALSE, TRUE}
+  Touches = {"lookup", "getitem"}
   Variant = "falsy_index"
 INVARIANT TypeOK
 INVARIANT Inv_C03_Nearest
